@@ -941,11 +941,11 @@ pub fn tnv(out: &mut Vec<u8>, tag: u8, name: &[u8], val: &[u8]) {
     out.extend_from_slice(val);
 }
 
-pub const FAMILIES: [&str; 27] = [
+pub const FAMILIES: [&str; 31] = [
     "nest", "nest-noname", "set-width", "attr-count", "group-count", "member-count", "value-len", "name-len", "unterminated", "endcoll-flood",
     "member-flood", "addl-no-attr", "coll-set", "nest-multi", "name-invalid-utf8", "value-invalid-utf8", "member-count-desc", "member-count-shuffled",
     "attr-count-desc", "wide-then-many", "set-width-mixed", "member-width-mixed", "set-width-strings", "attr-same-name", "attr-few-names",
-    "set-width-novalue", "member-same-name",
+    "set-width-novalue", "member-same-name", "value-len-text", "value-len-keyword", "value-len-withlang", "groups-late-op",
 ];
 
 /// input family `fam` with about `n` bytes of attribute data
@@ -1095,6 +1095,47 @@ pub fn family(fam: &str, n: usize) -> Vec<u8> {
                 tnv(&mut v, 0x30, name.as_bytes(), &vec![b'x'; k]);
                 left -= k;
                 i += 1;
+            }
+        }
+        // long values of the other string syntaxes (text with non-ASCII content, keyword, text-with-language)
+        "value-len-text" | "value-len-keyword" | "value-len-withlang" => {
+            let mut left = n;
+            let mut i = 0;
+            while left > 0 {
+                let k = left.min(65000);
+                let name = format!("v{i}");
+                let body: Vec<u8> = match fam {
+                    // whole characters only (valid UTF-8 at every size), padded with ASCII
+                    "value-len-text" => {
+                        let mut b: Vec<u8> = "x\u{e9}".bytes().cycle().take(k - k % 3).collect();
+                        b.resize(k, b'x');
+                        b
+                    }
+                    "value-len-keyword" => b"kw-".iter().copied().cycle().take(k).collect(),
+                    _ => {
+                        let mut b = vec![0, 2, b'e', b'n'];
+                        b.extend_from_slice(&((k.saturating_sub(6)) as u16).to_be_bytes());
+                        b.extend(std::iter::repeat(b't').take(k.saturating_sub(6)));
+                        b
+                    }
+                };
+                let tag = match fam {
+                    "value-len-text" => 0x41,
+                    "value-len-keyword" => 0x44,
+                    _ => 0x35,
+                };
+                tnv(&mut v, tag, name.as_bytes(), &body);
+                left -= k;
+                i += 1;
+            }
+        }
+        // a long run of other groups, then as many operation-attributes delimiters (work per delimiter that looks for an earlier group)
+        "groups-late-op" => {
+            for _ in 0..(n / 2) {
+                v.push(0x02);
+            }
+            for _ in 0..(n / 2) {
+                v.push(0x01);
             }
         }
         "name-len" => {
